@@ -1,7 +1,8 @@
 (* Layer B2 of the C07/C14 spec proofs: collecting a quiescent histogram core twice in a row
    (two registries gathered back to back) returns the same snapshot.
-   [Q h]: the shard that is not hot is empty, the hot shard's sum is not -0 and its counters are
-   below 2^64.  It holds of a fresh core, is kept by observe and by a collection, and under it a
+   [Q h]: the shard that is not hot is empty (at least as many zero buckets as the hot shard has
+   buckets), the hot shard's sum is not -0 and its counters are below 2^64.  It holds of a fresh
+   core, is kept by observe, by flushing ANY local histogram and by a collection, and under it a
    second collection returns the first one's snapshot. *)
 Require Import PV.Base.Prelude PV.Base.F64 PV.Model.Proto PV.Model.Desc PV.Model.Value PV.Model.Hist.
 Require Import PV.Proofs.F64Facts PV.Proofs.HistFacts.
@@ -10,7 +11,8 @@ Open Scope N_scope.
 #[local] Arguments wrap64 : simpl never.
 
 Definition Qshards (hot other : shard) : Prop :=
-  sh_sum other = f_zero /\ sh_count other = 0 /\ sh_buckets other = repeat 0 (length (sh_buckets hot))
+  sh_sum other = f_zero /\ sh_count other = 0
+  /\ (exists n, sh_buckets other = repeat 0 n /\ (length (sh_buckets hot) <= n)%nat)
   /\ is_negzero (sh_sum hot) = false /\ sh_count hot < two64 /\ Forall (fun x => x < two64) (sh_buckets hot).
 Definition Q (h : hcore) : Prop := Qshards (hc_shard h (hc_hot h)) (hc_shard h (negb (hc_hot h))).
 
@@ -19,11 +21,22 @@ Proof. unfold wrap64. apply N.mod_lt. discriminate. Qed.
 Lemma Forall_repeat0 n : Forall (fun x => x < two64) (repeat 0 n).
 Proof. induction n; cbn; constructor; auto. reflexivity. Qed.
 
+Lemma zip_add_zero_ge l : Forall (fun x => x < two64) l -> forall n, (length l <= n)%nat -> zip_add (repeat 0 n) l = l.
+Proof.
+  induction 1 as [|x l Hx F IH]; intros n Hn; [destruct n; reflexivity|]. destruct n as [|n]; [cbn in Hn; lia|].
+  cbn [repeat zip_add]. rewrite N.add_0_l, wrap64_small by assumption. f_equal. apply IH. cbn in Hn. lia.
+Qed.
+Lemma zip_add_lt a : forall b, Forall (fun x => x < two64) (zip_add a b).
+Proof. induction a as [|x a IH]; destruct b as [|y b]; cbn; constructor; auto. apply wrap64_lt. Qed.
+Lemma zip_add_length_le a : forall b, (length (zip_add a b) <= length a)%nat.
+Proof. induction a as [|x a IH]; destruct b as [|y b]; cbn; try lia. specialize (IH b). lia. Qed.
+
 Lemma Q_new o vals h : hcore_new o vals = Ok h -> Q h.
 Proof.
   unfold hcore_new. destruct (hopts_describe o); [|discriminate]. destruct (has_le_label d); [discriminate|].
   destruct (make_label_pairs d vals); [|discriminate]. destruct (check_and_adjust_buckets (ho_buckets o)); [|discriminate].
-  intros H. inversion H. unfold Q, Qshards. cbn. rewrite repeat_length. repeat split; auto. apply Forall_repeat0.
+  intros H. inversion H. unfold Q, Qshards. cbn. repeat split; auto; [|apply Forall_repeat0].
+  eexists. split; [reflexivity|]. rewrite repeat_length. lia.
 Qed.
 
 Lemma bump_lt j d l : Forall (fun x => x < two64) l -> Forall (fun x => x < two64) (bump j d l).
@@ -34,19 +47,37 @@ Qed.
 Lemma Q_observe h v : Q h -> Q (hc_observe h v).
 Proof.
   unfold Q, Qshards, hc_observe. destruct h as [d ls bs hot tot s0 s1]. destruct hot; cbn.
-  - intros (A & B & C & D & E & F). repeat split; auto.
-    + rewrite C. f_equal. destruct (find_bucket v bs 0); [rewrite bump_length|]; reflexivity.
+  - intros (A & B & (n & C1 & C2) & D & E & F). repeat split; auto.
+    + exists n. split; auto. destruct (find_bucket v bs 0); [rewrite bump_length|]; auto.
     + apply add_not_negzero. exact D.
     + apply wrap64_lt.
     + destruct (find_bucket v bs 0); auto. apply bump_lt. exact F.
-  - intros (A & B & C & D & E & F). repeat split; auto.
-    + rewrite C. f_equal. destruct (find_bucket v bs 0); [rewrite bump_length|]; reflexivity.
+  - intros (A & B & (n & C1 & C2) & D & E & F). repeat split; auto.
+    + exists n. split; auto. destruct (find_bucket v bs 0); [rewrite bump_length|]; auto.
     + apply add_not_negzero. exact D.
     + apply wrap64_lt.
     + destruct (find_bucket v bs 0); auto. apply bump_lt. exact F.
 Qed.
 Lemma hc_observe_desc h v : hc_desc (hc_observe h v) = hc_desc h /\ hc_labels (hc_observe h v) = hc_labels h.
 Proof. unfold hc_observe. destruct h as [d ls bs hot tot s0 s1]. destruct hot; cbn; auto. Qed.
+(* flushing a local histogram of any shape *)
+Lemma Q_flush h l : Q h -> Q (hc_flush h l).
+Proof.
+  unfold hc_flush. destruct (lh_count l =? 0); auto.
+  unfold Q, Qshards. destruct h as [d ls bs hot tot s0 s1]. destruct hot; cbn.
+  - intros (A & B & (n & C1 & C2) & D & E & F). repeat split; auto.
+    + exists n. split; auto. pose proof (zip_add_length_le (sh_buckets s1) (lh_counts l)). lia.
+    + apply add_not_negzero. exact D.
+    + apply wrap64_lt.
+    + apply zip_add_lt.
+  - intros (A & B & (n & C1 & C2) & D & E & F). repeat split; auto.
+    + exists n. split; auto. pose proof (zip_add_length_le (sh_buckets s0) (lh_counts l)). lia.
+    + apply add_not_negzero. exact D.
+    + apply wrap64_lt.
+    + apply zip_add_lt.
+Qed.
+Lemma hc_flush_desc h l : hc_desc (hc_flush h l) = hc_desc h /\ hc_labels (hc_flush h l) = hc_labels h.
+Proof. unfold hc_flush. destruct (lh_count l =? 0); auto. destruct h as [d ls bs hot tot s0 s1]. destruct hot; cbn; auto. Qed.
 
 (* a collection of a quiescent core: the core stays quiescent, keeps descriptor and labels, and
    the next collection returns the same snapshot *)
@@ -54,14 +85,18 @@ Lemma hc_proto_again h p h' : Q h -> hc_proto h = Some (p, h') ->
   Q h' /\ hc_desc h' = hc_desc h /\ hc_labels h' = hc_labels h /\ exists h'', hc_proto h' = Some (p, h'').
 Proof.
   unfold Q, Qshards, hc_proto. destruct h as [d ls bs hot tot s0 s1]. destruct hot; cbn.
-  - intros (A & B & C & D & E & F). destruct (sh_count s1 =? tot) eqn:Ec; cbn [negb]; [|discriminate].
+  - intros (A & B & (n & C1 & C2) & D & E & F). destruct (sh_count s1 =? tot) eqn:Ec; cbn [negb]; [|discriminate].
     apply N.eqb_eq in Ec. intros H. inversion H; subst p h'. clear H. cbn.
-    rewrite A, B, C. rewrite add_zero_l by exact D. rewrite N.add_0_l. rewrite <- Ec, wrap64_small by exact E.
-    rewrite zip_add_zero_l by exact F. rewrite N.eqb_refl. cbn [negb]. repeat split; auto. eexists. reflexivity.
-  - intros (A & B & C & D & E & F). destruct (sh_count s0 =? tot) eqn:Ec; cbn [negb]; [|discriminate].
+    rewrite A, B, C1. rewrite add_zero_l by exact D. rewrite N.add_0_l. rewrite <- Ec, wrap64_small by exact E.
+    rewrite zip_add_zero_ge by auto. rewrite N.eqb_refl. cbn [negb].
+    split; [|split; [reflexivity|split; [reflexivity|eexists; reflexivity]]].
+    split; [reflexivity|]. split; [reflexivity|]. split; [eexists; split; [reflexivity|lia]|]. split; [exact D|]. split; [exact E|exact F].
+  - intros (A & B & (n & C1 & C2) & D & E & F). destruct (sh_count s0 =? tot) eqn:Ec; cbn [negb]; [|discriminate].
     apply N.eqb_eq in Ec. intros H. inversion H; subst p h'. clear H. cbn.
-    rewrite A, B, C. rewrite add_zero_l by exact D. rewrite N.add_0_l. rewrite <- Ec, wrap64_small by exact E.
-    rewrite zip_add_zero_l by exact F. rewrite N.eqb_refl. cbn [negb]. repeat split; auto. eexists. reflexivity.
+    rewrite A, B, C1. rewrite add_zero_l by exact D. rewrite N.add_0_l. rewrite <- Ec, wrap64_small by exact E.
+    rewrite zip_add_zero_ge by auto. rewrite N.eqb_refl. cbn [negb].
+    split; [|split; [reflexivity|split; [reflexivity|eexists; reflexivity]]].
+    split; [reflexivity|]. split; [reflexivity|]. split; [eexists; split; [reflexivity|lia]|]. split; [exact D|]. split; [exact E|exact F].
 Qed.
 Lemma hist_metric_again h m h' : Q h -> hist_metric h = Some (m, h') ->
   Q h' /\ hc_desc h' = hc_desc h /\ hc_labels h' = hc_labels h /\ exists h'', hist_metric h' = Some (m, h'').
